@@ -102,6 +102,7 @@ package redisemu
 //@ ensures [C11] at.most: gWakes >= 0 && (elements >= 0 ==> gWakes <= elements)
 
 //@ func newWakeSignal
+//@ guards on
 //@ prop C11
 //@ safetyprop none
 //@ modifies global.signals alloc
